@@ -51,6 +51,10 @@
 (* the call; EndMasksStart = TRUE (D10b): the exact-equality zero at the    *)
 (* end hides the start root of a burn inside the last integrator step.      *)
 (* TLC refutes ThrustExactlyInterval / DeliveredDv / Semigroup for both.    *)
+(* FirstRootOnly = TRUE: of several event roots at one stop (an impulse at    *)
+(* the very time the burn starts or ends) only the first in list order is    *)
+(* applied, the others are swallowed - TLC refutes ThrustExactlyInterval /   *)
+(* ExactAtBoundaries / ImpulseNeverLost.                                      *)
 (* StaleThrust = TRUE: _prepEvents resets finite_thrust only when events    *)
 (* are passed, so a call WITHOUT events (DropEvents) on the same dynamics    *)
 (* object inherits the thrust the previous call left on; TLC refutes         *)
@@ -75,6 +79,9 @@ CONSTANTS
   OnlyFirstStart,   \* TRUE: pose only burns that start at FirstStart
   EndNeedsLanding,  \* deviation D10 (as coded): the end of the burn is no root, only a landing
   EndMasksStart,    \* deviation D10b (as coded): the exact-equality zero at the end hides the start
+  ImpChoice,        \* "steps": companion impulse "none" | "coincident" (with the burn's start or end) | "any" tick
+  ImpDvs,           \* delta-v values of the companion impulse (0 = an event that changes nothing)
+  FirstRootOnly,    \* deviation: of several roots at one stop only the first in list order is applied
   CallerMayDrop,    \* "calls": the caller may stop passing the event queue from some call on
   StaleThrust,      \* deviation (seeded/C03/change4): finite_thrust is only reset when events are passed
   EmitTag           \* "" = do not print behaviours
@@ -100,14 +107,19 @@ VARIABLES
   rem, outs,  \* remaining t_eval times / collected outputs of the running call
   hist,    \* completed calls (for the harness)
   on,      \* ticks tau such that the thrust was on during [tau, tau+1)
-  dropAt   \* time from which the caller passes no events any more (NeverDrop = it always does)
+  dropAt,  \* time from which the caller passes no events any more (NeverDrop = it always does)
+  imp      \* companion impulse [at, dv, first, st, qfirst, pend]: at = 0 none; first = listed before the burn in the
+           \* configuration; st = "config" | "queued" | "applied" | "lost"; qfirst = before the burn in the agent's queue;
+           \* pend = events whose root is at the current stop and that are still to be applied
 
-vars == <<pc, law, burn, dt, nsteps, hor, X0, now, X, queue, thrust, call, it, fresh, rem, outs, hist, on, dropAt>>
+vars == <<pc, law, burn, dt, nsteps, hor, X0, now, X, queue, thrust, call, it, fresh, rem, outs, hist, on, dropAt, imp>>
 
 NoBurn  == [ts |-> 0, te |-> 0, kind |-> "none"]
 NoCall  == [kind |-> "none", times |-> <<>>, X0 |-> <<>>, q |-> 0]
 HasBurn == burn.kind # "none"
 NeverDrop == Horizon + 2
+NoImp   == [at |-> 0, dv |-> 0, first |-> FALSE, st |-> "none", qfirst |-> FALSE, pend |-> {}]
+HasImp  == imp.at > 0
 G == law[2]
 A == law[3]
 Min(a, b) == IF a < b THEN a ELSE b
@@ -128,8 +140,9 @@ Ov(t) == IF HasBurn THEN Max(0, Min(t, EffEnd) - burn.ts) ELSE 0
 Closed(col, t) ==
   LET o  == Ov(t)
       tl == IF HasBurn /\ o > 0 THEN t - Min(t, EffEnd) ELSE 0   \* coasting time after the burn
-  IN <<col[1] + 2 * col[2] * t + G * t * t + A * (o * o + 2 * o * tl),
-       col[2] + G * t + A * o>>
+      jd == IF HasImp /\ t > imp.at THEN imp.dv ELSE 0       \* the impulse is applied exactly once, at imp.at
+  IN <<col[1] + 2 * col[2] * t + G * t * t + A * (o * o + 2 * o * tl) + 2 * jd * (t - imp.at),
+       col[2] + G * t + A * o + jd>>
 
 (***************************************************************************)
 (* Event roots seen by solve_ivp on (t, tf], as designed / as coded         *)
@@ -178,7 +191,7 @@ Flow(t0, tf, col, q) == Run(t0, tf, col, PruneQ(q, t0))
 Init == /\ pc = "poseLaw" /\ law = <<0, 0, 0>> /\ burn = NoBurn
         /\ dt = 0 /\ nsteps = 0 /\ hor = 0 /\ X0 = <<>> /\ now = 0 /\ X = <<>>
         /\ queue = 0 /\ thrust = 0 /\ call = NoCall /\ it = 0 /\ fresh = FALSE
-        /\ rem = <<>> /\ outs = <<>> /\ hist = <<>> /\ on = {} /\ dropAt = NeverDrop
+        /\ rem = <<>> /\ outs = <<>> /\ hist = <<>> /\ on = {} /\ dropAt = NeverDrop /\ imp = NoImp
 
 PoseLaw ==
   /\ pc = "poseLaw"
@@ -187,6 +200,7 @@ PoseLaw ==
   /\ pc' = "poseGrid"
   /\ UNCHANGED <<burn, dt, nsteps, hor, now, queue, thrust, call, it, fresh, rem, outs, hist, on>>
   /\ UNCHANGED dropAt
+  /\ UNCHANGED imp
 
 PoseGrid ==
   /\ pc = "poseGrid"
@@ -199,6 +213,7 @@ PoseGrid ==
   /\ pc' = "poseBurn"
   /\ UNCHANGED <<law, burn, X0, now, X, queue, thrust, call, it, fresh, rem, outs, hist, on>>
   /\ UNCHANGED dropAt
+  /\ UNCHANGED imp
 
 BurnIntervals ==
   {<<s, e>> \in (FirstStart..hor) \X (1..(hor + 1)) :
@@ -211,9 +226,25 @@ PoseBurn ==
   /\ pc = "poseBurn"
   /\ \/ \E iv \in BurnIntervals, k \in Kinds : burn' = [ts |-> iv[1], te |-> iv[2], kind |-> k]
      \/ WithNoBurn /\ burn' = NoBurn
-  /\ pc' = IF Mode = "calls" THEN "append" ELSE "idle"
+  /\ pc' = IF Mode = "calls" THEN "append" ELSE "poseImp"
   /\ UNCHANGED <<law, dt, nsteps, hor, X0, now, X, queue, thrust, call, it, fresh, rem, outs, hist, on>>
   /\ UNCHANGED dropAt
+  /\ UNCHANGED imp
+
+\* "steps" mode: a companion impulse of the same agent, strictly inside a step (an impulse ON a step boundary is
+\* the subject of C01), in particular at the very time at which the burn starts or ends
+ImpTimes == {t \in 1..(hor - 1) :
+               /\ t % dt # 0
+               /\ \/ ImpChoice = "any"
+                  \/ ImpChoice = "coincident" /\ HasBurn /\ t \in {burn.ts, burn.te}}
+PoseImp ==
+  /\ pc = "poseImp"
+  /\ \/ imp' = NoImp
+     \/ /\ ImpChoice # "none"
+        /\ \E t \in ImpTimes, d \in ImpDvs, f \in BOOLEAN :
+              imp' = [at |-> t, dv |-> d, first |-> f, st |-> "config", qfirst |-> FALSE, pend |-> {}]
+  /\ pc' = "idle"
+  /\ UNCHANGED <<law, burn, dt, nsteps, hor, X0, now, X, queue, thrust, call, it, fresh, rem, outs, hist, on, dropAt>>
 
 (***************************************************************************)
 (* Agent side: queue                                                       *)
@@ -225,12 +256,19 @@ AppendEvent ==
   /\ pc' = "idle"
   /\ UNCHANGED <<law, burn, dt, nsteps, hor, X0, now, X, thrust, call, it, fresh, rem, outs, hist, on>>
   /\ UNCHANGED dropAt
+  /\ UNCHANGED imp
 
 \* "steps" mode: Scenario.stepForward handles the relevant events of (now, now + dt]:
 \* a burn is appended again at every step in which it is active
 Deliver ==
   /\ pc = "idle" /\ Mode = "steps" /\ now < hor
   /\ queue' = IF Delivered(now, now + dt) THEN queue + 1 ELSE queue
+  \* the impulse is handled (appended) in the step that contains it; it stands before the burn in the
+  \* queue iff it is listed first AND no copy of the burn is queued from an earlier step (the prune keeps
+  \* the first copy of a duplicate)
+  /\ imp' = IF imp.st = "config" /\ now < imp.at /\ imp.at <= now + dt
+              THEN [imp EXCEPT !.st = "queued", !.qfirst = imp.first /\ queue = 0]
+              ELSE imp
   /\ pc' = "delivered"
   /\ UNCHANGED <<law, burn, dt, nsteps, hor, X0, now, X, thrust, call, it, fresh, rem, outs, hist, on>>
   /\ UNCHANGED dropAt
@@ -242,7 +280,7 @@ DropEvents ==
   /\ pc = "idle" /\ Mode = "calls" /\ CallerMayDrop
   /\ queue > 0 /\ Len(hist) >= 1 /\ Len(hist) < MaxCalls /\ now < hor
   /\ queue' = 0 /\ dropAt' = now
-  /\ UNCHANGED <<pc, law, burn, dt, nsteps, hor, X0, now, X, thrust, call, it, fresh, rem, outs, hist, on>>
+  /\ UNCHANGED <<pc, law, burn, dt, nsteps, hor, X0, now, X, thrust, call, it, fresh, rem, outs, hist, on, imp>>
 
 \* PropagateRegistration.generateSubmission -> Agent.prunePropagateEvents
 Prune ==
@@ -252,6 +290,7 @@ Prune ==
   /\ pc' = "pruned"
   /\ UNCHANGED <<law, burn, dt, nsteps, hor, X0, now, X, thrust, call, it, fresh, rem, outs, hist, on>>
   /\ UNCHANGED dropAt
+  /\ UNCHANGED imp
 
 (***************************************************************************)
 (* Celestial.propagate / propagateBulk                                      *)
@@ -272,6 +311,7 @@ Begin(kind, times) ==
   /\ pc' = "integ"
   /\ UNCHANGED <<law, burn, dt, nsteps, hor, X0, now, X, queue, hist, on>>
   /\ UNCHANGED dropAt
+  /\ UNCHANGED imp
 
 \* Propagate(t0, t1)
 PrepEvents ==
@@ -289,33 +329,63 @@ Tf == call.times[Len(call.times)]
 \* dense output serves every requested time up to the stop (the first one is t0 itself)
 Integrate ==
   /\ pc = "integ"
-  /\ LET s     == Stop(it, fresh, Tf, call.q)
-         acc   == G + thrust
-         ready == SelectSeq(rem, LAMBDA t : t <= s)
+  /\ LET sB      == Stop(it, fresh, Tf, call.q)                     \* first root of the burn, or the final time
+         impRoot == imp.st = "queued" /\ it < imp.at /\ imp.at <= Tf
+         s       == IF impRoot /\ imp.at < sB THEN imp.at ELSE sB
+         acc     == G + thrust
+         ready   == SelectSeq(rem, LAMBDA t : t <= s)
+         \* every event whose root IS the stop time (solve_ivp itself reports only one of them)
+         here    == (IF StartRoot(it, fresh, Tf, call.q) /\ burn.ts = s THEN {"start"} ELSE {})
+                    \cup (IF ~StartRoot(it, fresh, Tf, call.q) /\ EndRoot(it, Tf, call.q) /\ burn.te = s THEN {"end"} ELSE {})
+                    \cup (IF impRoot /\ imp.at = s THEN {"imp"} ELSE {})
      IN /\ X' = AdvX(X, acc, s - it)
         /\ outs' = outs \o [j \in 1..Len(ready) |-> AdvX(X, acc, ready[j] - it)]
         /\ rem' = SelectSeq(rem, LAMBDA t : t > s)
         /\ on' = IF thrust # 0 THEN on \cup (it..(s - 1)) ELSE on
         /\ it' = s
-        /\ pc' = IF StartRoot(it, fresh, Tf, call.q) THEN "start"
-                 ELSE IF EndRoot(it, Tf, call.q) THEN "end" ELSE "finish"
+        /\ imp' = [imp EXCEPT !.pend = here]
+        /\ pc' = IF here # {} THEN "apply" ELSE "finish"
   /\ UNCHANGED <<law, burn, dt, nsteps, hor, X0, now, queue, thrust, call, fresh, hist>>
   /\ UNCHANGED dropAt
 
-\* _applyEvents at the start root: finite_thrust := thrust function; restart an ulp later
+\* _applyEvents.  Several events can have their root at the same stop (an impulse at the very time the burn starts
+\* or ends).  As designed EVERY one of them is applied before the integration restarts; they are taken in the order
+\* of the event list (the agent's queue, then the end events of the burns).  Deviation FirstRootOnly (solve_ivp
+\* reports only the first terminal event among equal roots, and after the restart - an ulp later - the functions of
+\* the others are already past zero): only the first is applied, the others are never seen in this call.
+ListOrder == IF imp.qfirst THEN <<"imp", "start", "end">> ELSE <<"start", "imp", "end">>
+NextEv == LET idx == {i \in 1..3 : ListOrder[i] \in imp.pend}
+          IN ListOrder[CHOOSE i \in idx : \A j \in idx : i <= j]
+Rest(ev) == IF FirstRootOnly THEN {} ELSE imp.pend \ {ev}
+\* an impulse that was pending at this stop and is skipped is lost for good (the prune drops it: its time is past)
+ImpAfter(ev) == [imp EXCEPT !.pend = Rest(ev),
+                            !.st = IF ev = "imp" THEN "applied"
+                                   ELSE IF "imp" \in imp.pend /\ FirstRootOnly THEN "lost" ELSE imp.st]
+PcAfter(ev) == IF Rest(ev) # {} THEN "apply" ELSE IF it < Tf THEN "integ" ELSE "finish"
+
+\* start root: finite_thrust := thrust function
 StartThrust ==
-  /\ pc = "start"
+  /\ pc = "apply" /\ NextEv = "start"
   /\ thrust' = A /\ fresh' = FALSE
-  /\ pc' = IF it < Tf THEN "integ" ELSE "finish"
+  /\ imp' = ImpAfter("start") /\ pc' = PcAfter("start")
   /\ UNCHANGED <<law, burn, dt, nsteps, hor, X0, now, X, queue, call, it, rem, outs, hist, on>>
   /\ UNCHANGED dropAt
 
-\* _applyEvents at the end root: getStateChangeCallback returns None
+\* end root: getStateChangeCallback returns None
 EndThrust ==
-  /\ pc = "end"
+  /\ pc = "apply" /\ NextEv = "end"
   /\ thrust' = 0 /\ fresh' = FALSE
-  /\ pc' = IF it < Tf THEN "integ" ELSE "finish"
+  /\ imp' = ImpAfter("end") /\ pc' = PcAfter("end")
   /\ UNCHANGED <<law, burn, dt, nsteps, hor, X0, now, X, queue, call, it, rem, outs, hist, on>>
+  /\ UNCHANGED dropAt
+
+\* discrete event: the state jumps by the impulse's delta-v, the thrust is not touched
+ApplyImpulse ==
+  /\ pc = "apply" /\ NextEv = "imp"
+  /\ X' = [k \in DOMAIN X |-> <<X[k][1], X[k][2] + imp.dv>>]
+  /\ fresh' = FALSE
+  /\ imp' = ImpAfter("imp") /\ pc' = PcAfter("imp")
+  /\ UNCHANGED <<law, burn, dt, nsteps, hor, X0, now, queue, thrust, call, it, rem, outs, hist, on>>
   /\ UNCHANGED dropAt
 
 \* return value; PropagateRegistration.processResults: time and state of the agent.
@@ -329,8 +399,9 @@ Finish ==
   /\ call' = [call EXCEPT !.kind = "none"]
   /\ UNCHANGED <<law, burn, dt, nsteps, hor, X0, X, queue, thrust, it, fresh, rem, outs, on>>
   /\ UNCHANGED dropAt
+  /\ UNCHANGED imp
 
-Next == PoseLaw \/ PoseGrid \/ PoseBurn \/ AppendEvent \/ Deliver \/ DropEvents \/ Prune \/ PrepEvents
+Next == PoseLaw \/ PoseGrid \/ PoseBurn \/ PoseImp \/ ApplyImpulse \/ AppendEvent \/ Deliver \/ DropEvents \/ Prune \/ PrepEvents
         \/ PrepEventsBulk \/ Integrate \/ StartThrust \/ EndThrust \/ Finish
 Spec == Init /\ [][Next]_vars
 
@@ -343,17 +414,20 @@ Cols == DOMAIN X
 \* C15: thrust on during tick tau  iff  ts <= tau < te   (for every completed tick)
 ThrustExactlyInterval ==
   AtBoundary => \A tau \in 0..(now - 1) : (tau \in on) <=> (HasBurn /\ burn.ts <= tau /\ tau < EffEnd)
-\* C15: delivered delta-v = a * thrust time; = a * (te - ts) once the burn is over
+\* C15: delivered delta-v = a * thrust time; = a * (te - ts) once the burn is over (plus the impulse, once)
+ImpDv(t) == IF HasImp /\ t > imp.at THEN imp.dv ELSE 0
 DeliveredDv ==
   AtBoundary => \A k \in Cols :
-     /\ X[k][2] - (X0[k][2] + G * now) = A * Cardinality(on)
-     /\ (HasBurn /\ now >= EffEnd) => X[k][2] - (X0[k][2] + G * now) = A * Max(0, EffEnd - burn.ts)
+     /\ X[k][2] - (X0[k][2] + G * now) = A * Cardinality(on) + ImpDv(now)
+     /\ (HasBurn /\ now >= EffEnd) => X[k][2] - (X0[k][2] + G * now) = A * Max(0, EffEnd - burn.ts) + ImpDv(now)
 \* C03/C15: the state at a call boundary does not depend on how [0, now] was cut into calls
 ExactAtBoundaries ==
   AtBoundary => \A k \in Cols : X[k] = Closed(X0[k], now)
 \* C03: Flow(t0,t2,x) = Flow(t1,t2,Flow(t0,t1,x)) for every split, from every reachable state
+\* (Flow / Run describe calls with the burn only; behaviours with a companion impulse are covered by
+\* ExactAtBoundaries, DeliveredDv and ThrustExactlyInterval)
 Semigroup ==
-  (pc = "idle" /\ call.kind = "none") =>
+  (pc = "idle" /\ call.kind = "none" /\ ~HasImp) =>
      \A t1 \in (now + 1)..(hor - 1), t2 \in (now + 2)..hor : t1 < t2 =>
         \A k \in Cols :
            Flow(now, t2, X[k], queue) = Flow(t1, t2, Flow(now, t1, X[k], queue), queue)
@@ -366,11 +440,13 @@ BulkConsistent ==
                         ELSE Run(call.times[1], call.times[j], call.X0[k], call.q)
 \* the actions and the recursive operator describe the same driver
 StepwiseEqualsRun ==
-  pc = "finish" => \A k \in Cols : X[k] = Run(call.times[1], Tf, call.X0[k], call.q)
+  (pc = "finish" /\ ~HasImp) => \A k \in Cols : X[k] = Run(call.times[1], Tf, call.X0[k], call.q)
 \* the queue never holds an ended burn when a call starts, and never more than one copy
 QueueClean ==
-  pc \in {"pruned", "integ", "start", "end", "finish"} =>
+  pc \in {"pruned", "integ", "apply", "finish"} =>
      queue <= 1 /\ (queue = 1 => HasBurn /\ now < burn.te)
+\* every scheduled impulse takes effect exactly once (it is never skipped at a stop it shares with another event)
+ImpulseNeverLost == imp.st # "lost" /\ (pc = "done" /\ HasImp => imp.st = "applied")
 
 (***************************************************************************)
 (* Behaviours for the harness (spec -> impl replay)                        *)
@@ -379,5 +455,6 @@ Emit ==
   (pc = "done" /\ EmitTag # "") =>
      PrintT(EmitTag \o " " \o ToJson(
        [mode |-> Mode, law |-> law, K |-> Len(X0), dt |-> dt, nsteps |-> nsteps, hor |-> hor,
-        burn |-> burn, X0 |-> X0, hist |-> hist, on |-> on, dropAt |-> dropAt]))
+        burn |-> burn, X0 |-> X0, hist |-> hist, on |-> on, dropAt |-> dropAt,
+        imp |-> [at |-> imp.at, dv |-> imp.dv, first |-> imp.first, qfirst |-> imp.qfirst]]))
 =============================================================================
